@@ -81,7 +81,13 @@ def stream(tier):
                 before = srv.keep_alive
                 rm.sender = before           # what _RequestManager was created with (Server.start)
                 hexact = None if hs is None else Fraction(float(hs))
-                srv._use_keep_alive_hint(hs)
+                try:
+                    srv._use_keep_alive_hint(hs)
+                except Exception as e:
+                    # hints are decimal strings (the quantifier says so): nothing may escape, the reader thread would die
+                    res.violation("keepalive:hint-raises", "_use_keep_alive_hint(%r) raises %r (keep_alive=%r, %s server)" % (hs, e, ka, kind),
+                                  {"keep_alive": ka, "hint": hs, "kind": kind})
+                    continue
                 after_cfg, after_snd = srv.keep_alive, rm.sender
             finally:
                 srv._executor.shutdown(wait=False)
